@@ -253,3 +253,36 @@ def run(ctx):
                      "selection_parser records a ShardingKey::%s without looking at `found` (its sibling arm does): any `col = $n` makes $n a sharding-key placeholder - `WHERE age = $1` is routed by the value of age, and "
                      "`WHERE name = $1 AND id = $2` yields two candidate shards and is not routed at all" % "/".join(sorted(var)), c.where())
         r5.check(npush >= 2 and bool(T), "selection-arms", "%d arms of selection_parser record a sharding key, `found` is tested" % npush, "expected the Number and Placeholder arms of selection_parser (found %d) and a test of `found`" % npush)
+
+    # ---------------- R6 every statement's key gets its turn (D49, D50)
+    r6 = ctx.rule("C06-R6", "with automatic_sharding_key, QueryRouter::infer derives the shard of every statement it classifies: the key-parameter positions it records start empty for every message "
+                  "(positions of a statement that was parsed but never bound - Parse / Describe / Sync - must not be applied to the next statement's Bind), and no branch of the Query arm skips the shard inference", floor=2)
+    inf6 = ctx.body("pgcat::query_router::QueryRouter::infer", r6)
+    if inf6:
+        sw6 = switches(inf6)
+        heads6 = [hd for hd in loop_headers(inf6) if any(c.block in natural_loop(inf6, hd) for c in inf6.calls("pgcat::query_router::QueryRouter::infer_shard"))]
+        if not heads6:
+            r6.missing("statement loop with infer_shard in QueryRouter::infer")
+        else:
+            head6 = min(heads6)
+            clears = [c for c in inf6.calls("re:^alloc::vec::Vec.*::clear$") if "placeholders" in {p_[1:] for o in origins(inf6, c.args[0]) if o.kind in ("place", "param") for p_ in o.proj if p_.startswith(".")}]
+            ok_c = any(inf6.dominates(c.block, head6) for c in clears)
+            r6.check(ok_c, "placeholders-start-empty", "infer() empties QueryRouter.placeholders before it looks at the statements of a message",
+                     "infer() only ever adds to QueryRouter.placeholders (they are emptied when a Bind has been routed): after `Parse(.. WHERE id = $1) Describe Sync` - how drivers prepare - the position stays behind, "
+                     "and the Bind of the next statement (`WHERE v = $1 AND id = $2`) takes $1 for a key: two shards, or none - the statement runs on whatever shard was selected before")
+            # the Query arm
+            qsw = None
+            for sw in sw6:
+                d = sw.discr()
+                if d and d[0].endswith("sqlparser::ast::Statement") and "Query" in d[2] and sw.block in natural_loop(inf6, head6):
+                    qsw = (sw, d)
+            if not qsw:
+                r6.missing("switch on Statement::Query in infer")
+            else:
+                qt = qsw[1][2]["Query"]
+                ish = [c.block for c in inf6.calls("pgcat::query_router::QueryRouter::infer_shard")]
+                noneE, _, _ = discr_edges(inf6, r"core::option::Option<alloc::string::String>", "None", switches_cache=sw6)
+                w6 = inf6.uncrossed_path([qt], [head6], blocks=ish, edges=set(noneE))
+                r6.check(w6 is None, "query-arm-always-infers-shard", "every way through the Query arm passes infer_shard (unless no automatic sharding key is configured)",
+                         "a branch of the Query arm goes on to the next statement without deriving the shard (activity-based routing: a SELECT on a recently written table, or any SELECT while the database counts as initializing): "
+                         "the statement runs on the shard the previous statement selected", "", w6 and inf6.describe_path(w6))
